@@ -306,7 +306,26 @@ func stubMarshalIndent(v interface{}, prefix, indent string) ([]byte, error) {
 	defer vJSONMu.Unlock()
 	vMetaTab = append(vMetaTab, &cp)
 	idx := len(vMetaTab) - 1
-	return []byte{0xfe, byte(idx >> 8), byte(idx)}, nil
+	out := []byte{0xfe, byte(idx >> 8), byte(idx)}
+	for i, n := 0, vMetaSize(&cp); i < n; i++ {
+		out = append(out, 0xaa) // the encoding grows and shrinks with the content
+	}
+	return out, nil
+}
+
+// vMetaSize: a structural size of the side-car document (populated fields), so that its encoded
+// length varies with the content as JSON's does.
+func vMetaSize(o *storage.Object) int {
+	n := len(o.Metadata)
+	for _, f := range []string{o.ContentType, o.ContentEncoding, o.ContentDisposition, o.ContentLanguage, o.CacheControl, o.Md5Hash, o.Crc32c, o.TimeCreated, o.Updated, o.Name, o.Etag} {
+		if f != "" {
+			n++
+		}
+	}
+	if o.Metageneration != 0 {
+		n++
+	}
+	return n
 }
 
 // vDecodeMetaFile decodes a side-car file read back from the model into obj.
@@ -314,12 +333,15 @@ func vDecodeMetaFile(r *bytes.Reader, v interface{}) error {
 	buf := make([]byte, r.Len())
 	r.Read(buf)
 	o, ok := v.(*storage.Object)
-	if !ok || len(buf) != 3 || buf[0] != 0xfe {
+	if !ok || len(buf) < 3 || buf[0] != 0xfe {
 		return vBadJSON{}
 	}
 	vJSONMu.Lock()
 	src := vMetaTab[int(buf[1])<<8|int(buf[2])]
 	vJSONMu.Unlock()
+	if len(buf) != 3+vMetaSize(src) {
+		return vBadJSON{} // a left-over tail of an older, longer document
+	}
 	*o = *src
 	if src.Metadata != nil {
 		o.Metadata = map[string]string{}
@@ -353,4 +375,132 @@ func vNewEmuOn(kind int) *GcsEmu {
 		g.store = NewFileStore("/gcs")
 	}
 	return g
+}
+
+// ---- open files: os.OpenFile / Create / Open and the *os.File methods the stores could use ----
+
+type vOpen struct {
+	path   string
+	off    int
+	append bool
+	closed bool
+}
+
+var vOpenTab map[*os.File]*vOpen
+
+func stubFsOpenFile(name string, flag int, perm os.FileMode) (*os.File, error) {
+	vFSMu.Lock()
+	defer vFSMu.Unlock()
+	vFSInit()
+	n, ok := vFS[name]
+	if ok {
+		if flag&(os.O_CREATE|os.O_EXCL) == os.O_CREATE|os.O_EXCL {
+			return nil, os.ErrExist
+		}
+		if n.dir && flag&(os.O_WRONLY|os.O_RDWR) != 0 {
+			return nil, vErrIsDir
+		}
+	} else {
+		if flag&os.O_CREATE == 0 {
+			_, err := vLookup(name)
+			return nil, err
+		}
+		pn, err := vLookup(vParentDir(name))
+		if err != nil {
+			return nil, err
+		}
+		if !pn.dir {
+			return nil, vErrNotDir
+		}
+		n = &vNode{mtime: time.Now()}
+		vFS[name] = n
+	}
+	if flag&os.O_TRUNC != 0 && !n.dir {
+		n.data, n.mtime = nil, time.Now()
+	}
+	f := new(os.File)
+	if vOpenTab == nil {
+		vOpenTab = map[*os.File]*vOpen{}
+	}
+	vOpenTab[f] = &vOpen{path: name, append: flag&os.O_APPEND != 0}
+	return f, nil
+}
+
+func stubFsCreate(name string) (*os.File, error) {
+	return stubFsOpenFile(name, os.O_RDWR|os.O_CREATE|os.O_TRUNC, 0666)
+}
+func stubFsOpen(name string) (*os.File, error) { return stubFsOpenFile(name, os.O_RDONLY, 0) }
+
+func stubFileWrite(f *os.File, b []byte) (int, error) {
+	vFSMu.Lock()
+	defer vFSMu.Unlock()
+	o := vOpenTab[f]
+	if o == nil || o.closed {
+		return 0, os.ErrClosed
+	}
+	n := vFS[o.path]
+	if n == nil || n.dir {
+		return len(b), nil // unlinked meanwhile: the bytes go to the orphaned inode
+	}
+	if o.append {
+		o.off = len(n.data)
+	}
+	data := append([]byte(nil), n.data...)
+	for len(data) < o.off+len(b) {
+		data = append(data, 0)
+	}
+	copy(data[o.off:], b)
+	o.off += len(b)
+	n.data, n.mtime = data, time.Now()
+	return len(b), nil
+}
+func stubFileWriteString(f *os.File, s string) (int, error) { return stubFileWrite(f, []byte(s)) }
+func stubFileSync(f *os.File) error                         { return nil }
+func stubFileClose(f *os.File) error {
+	vFSMu.Lock()
+	defer vFSMu.Unlock()
+	o := vOpenTab[f]
+	if o == nil || o.closed {
+		return os.ErrClosed
+	}
+	o.closed = true
+	return nil
+}
+func stubFileTruncate(f *os.File, size int64) error {
+	vFSMu.Lock()
+	defer vFSMu.Unlock()
+	o := vOpenTab[f]
+	if o == nil || o.closed {
+		return os.ErrClosed
+	}
+	if n := vFS[o.path]; n != nil && !n.dir {
+		data := append([]byte(nil), n.data...)
+		for int64(len(data)) < size {
+			data = append(data, 0)
+		}
+		n.data, n.mtime = data[:size], time.Now()
+	}
+	return nil
+}
+
+func vFileStubs() map[string]interface{} {
+	return map[string]interface{}{
+		"os.OpenFile":            stubFsOpenFile,
+		"os.Create":              stubFsCreate,
+		"os.Open":                stubFsOpen,
+		"(*os.File).Write":       stubFileWrite,
+		"(*os.File).WriteString": stubFileWriteString,
+		"(*os.File).Sync":        stubFileSync,
+		"(*os.File).Close":       stubFileClose,
+		"(*os.File).Truncate":    stubFileTruncate,
+		"os.Truncate":            stubFsTruncatePath,
+	}
+}
+
+func stubFsTruncatePath(name string, size int64) error {
+	f, err := stubFsOpenFile(name, os.O_WRONLY, 0)
+	if err != nil {
+		return err
+	}
+	return stubFileTruncate(f, size)
 }
